@@ -151,6 +151,16 @@ def overtaken(ex, pre, res_item, now_lo):
     return Or(*conds)
 
 
+def released_by_expiry(ex, pre, res_item, now_hi):
+    """the returned delivery's recorded predecessor is an uncompleted delivery whose retention has run out (that is what made it eligible)"""
+    conds = []
+    for x in pre['Delivery']:
+        for p in pre['Delivery']:
+            conds.append(And(x.exists, p.exists, ex.eq(x.v['id'], res_item['id']), Not(x.isnull('not_before_id')), ex.eq(x.v['not_before_id'], p.v['id']),
+                             p.isnull('completed_at'), p.v['expires_at'] <= now_hi))
+    return Or(*conds)
+
+
 def publish_batch_chain(chk, prog):
     """one Publish request carrying several messages (the real handler): on an ordered subscription every keyed message of the batch is
     chained behind the latest earlier message of the batch with the same key - batch order is publish order"""
@@ -231,13 +241,13 @@ TEMPLATES_QUICK = [
     ['pub', 'pub', 'pub', 'pull', 'ack', 'pull'],
     ['pub', 'pub', 'pull', 'nack', 'pull'],
     ['pub', 'pub', 'pull', 'ack', 'prune_completed', 'pull'],
+    ['pub', 'pull', 'ack', 'pub', 'seek0', 'pub', 'pull'],
 ]
 TEMPLATES_THOROUGH = TEMPLATES_QUICK + [
-    ['pub', 'pull', 'ack', 'pub', 'seek0', 'pub', 'pull', 'ack', 'pull', 'pull'],
     ['pub', 'pub', 'pub', 'pull', 'ack', 'pull', 'ack', 'pull'],
-    ['pub', 'pub', 'pub', 'pull', 'nack', 'pull', 'ack', 'pull'],
+    ['pub', 'pub', 'pull', 'nack', 'pull', 'ack', 'pull'],
     ['pub', 'pull', 'pub', 'pub', 'ack', 'pull', 'ack', 'pull'],
-    ['pub', 'pub', 'pub', 'pull', 'ack', 'prune_completed', 'pull', 'prune_expired', 'pull'],
+    ['pub', 'pull', 'ack', 'pub', 'seek0', 'pub', 'pull', 'ack', 'pull'],
 ]
 
 
@@ -258,6 +268,19 @@ def main():
         def harness(ex, ob, tpl=tpl):
             db, t, s = world0(ex, prog)
             trace = Trace(ex, db, s)
+            # counterexamples are asked for without knife-edge instants (every deadline of every delivery at least a second away from
+            # every clock reading), so that the real clock's jitter cannot flip a comparison in the replay
+            ex.env['small_model'] = [z3.BoolVal(True)]
+
+            def margins(ex_, db=db):
+                out = []
+                for n in stdlib.clock(ex_)['nows']:
+                    for d in db.t['Delivery']:
+                        for c in ('expires_at', 'attempt_at'):
+                            if is_sym(d.v[c]) or is_sym(n):
+                                out.append(z3.Or(d.v[c] - n >= 10**9, n - d.v[c] >= 10**9))
+                return out
+            ex.env['replay_margins'] = margins
             keys = []
             npub = 0
             last_pull = None
@@ -281,8 +304,11 @@ def main():
                     last_pull = len(trace.pulls) - 1
                     opi, res, pre, nows = trace.pulls[-1]
                     for k, r in enumerate(res):
-                        def describe(m, trace=trace, keys=keys):
-                            return {'template': tpl, 'keys': [replay.mval(m, x) for x in keys], 'ops': concretize_ops(m, trace, keys)}
+                        rel = released_by_expiry(ex, pre, r, nows[-1])
+
+                        def describe(m, trace=trace, keys=keys, rel=rel):
+                            return {'template': tpl, 'keys': [replay.mval(m, x) for x in keys], 'ops': concretize_ops(m, trace, keys),
+                                    'released_by_expired_predecessor': bool(z3.is_true(m.eval(zbool(rel), model_completion=True)))}
 
                         def rp(m, desc, trace=trace, keys=keys, pull_no=len(trace.pulls) - 1):
                             return replay_trace(chk, ob, m, trace, keys, db, pull_no)
@@ -329,6 +355,10 @@ def known_pred(pred, m, desc):
                 if ks[i] != '' and ks[i] == ks[j] and any(ks[x] != ks[i] for x in range(i + 1, j)):
                     return True
         return False
+    if pred == 'released-by-expired-predecessor':
+        # the overtaking delivery became eligible because its recorded predecessor expired unacknowledged, while an even earlier same-key
+        # message (with a later expiry: revived by a seek) is still outstanding - eligibility looks one link back only
+        return bool(desc.get('released_by_expired_predecessor')) and 'seek0' in (desc.get('template') or [])
     return False
 
 
